@@ -5,7 +5,7 @@ Lean model (lean/Driver/Lifecycle.lean over GmqttVerif.Model.Lifecycle). After e
 exact quiescence; the observable lifecycle facts are: which connections the broker closed, how many clients are
 registered (`counts`), the goroutine census by kind (`census`), what `Stop` did (`lstop`: returned?, Unload / OnStop
 counts, census before the scripted peers let go of their sockets)."""
-import os, re
+import os, re, subprocess
 from .. import core, wire
 
 PROP = "C15"
@@ -321,7 +321,7 @@ def race_predicate(ops, out):
     return predicate(ops, out)
 
 def streams(tier):
-    n = 600 if tier == "quick" else 3000
+    n = 300 if tier == "quick" else 3000
     res = [(LifecycleStream("lifecycle", "broker", gen, predicate, nontrivial, canon=canon, keep_prefix=1, timeout=600), n)]
     if tier == "thorough":
         res.append((LifecycleStream("lifecycle-race", "broker_race", gen, race_predicate, nontrivial, canon=canon, keep_prefix=1,
@@ -390,6 +390,25 @@ def run(r):
         r.log(f"go build -race rc={rc}")
         if rc != 0:
             r.notes.append("the -race build of the driver failed; the race-detector runs were skipped: " + out[-300:])
+    # support for lock_order_acyclic: a stress run that hits the known lock-order cycle within seconds if it is there
+    with core.Lock("go"):
+        rc, out = core.sh(["go", "build", "-tags", "verif", "-o", os.path.join(core.HARNESS, "bin") + "/", "./cmd/probe_lockorder"],
+                          cwd=core.HARNESS, env=core.goenv(), timeout=900)
+    if rc != 0:
+        r.violation("go-build-probe", "# cmd/probe_lockorder does not build\n" + out[-2000:], False, "go build failed")
+    else:
+        secs = 8 if r.tier == "quick" else 60
+        p = subprocess.run([os.path.join(core.HARNESS, "bin", "probe_lockorder"), "-seconds", str(secs)], stdout=subprocess.PIPE,
+                           stderr=subprocess.PIPE, text=True, timeout=secs + 60)
+        r.log(f"probe_lockorder {secs}s: {p.stdout.strip()[:80]}")
+        r.cov["lockorder_probe"] = p.stdout.strip()[:80]
+        if p.returncode != 0:
+            stacks = [g for g in p.stderr.split("\n\n") if "RWMutex" in g or "sync.Mutex.Lock" in g or "sync.(*Mutex).Lock" in g][:6]
+            why = ("lock order: the broker deadlocked under PUBLISH (delivery mode overlap) + SUBSCRIBE + new connections: " +
+                   p.stdout.strip())
+            if not r.known_finding(dict(stream="lockorder", ops=[], impl=None, model=None, why=why, kind="lockorder")):
+                r.violation("lockorder-probe", "# " + why + "\n# run: harness/bin/probe_lockorder -seconds 10\n# goroutines waiting for "
+                            "a mutex:\n" + "\n\n".join(stacks)[:6000] + "\n", True, "deadlock in probe_lockorder")
     for s, n in streams(r.tier):
         if s.name == "lifecycle-race" and not os.path.exists(core.drive_exe("broker_race")):
             continue
